@@ -1465,27 +1465,38 @@ fn eval_call(
             },
 
             CallBinding::Func{bindings, mut closure, stmts} => {
-                let v = eval_stmts(
+                eval_stmts(
                     context,
                     &mut closure,
                     bindings,
                     &stmts,
                 )
+                    .and_then(|escape| {
+                        match escape {
+                            Escape::None =>
+                                Ok(value::new_null()),
+                            Escape::Break{loc: (line, col)} =>
+                                Err(Error::AtLoc{
+                                    source: Box::new(Error::BreakOutsideLoop),
+                                    line,
+                                    col,
+                                }),
+                            Escape::Continue{loc: (line, col)} =>
+                                Err(Error::AtLoc{
+                                    source: Box::new(
+                                        Error::ContinueOutsideLoop,
+                                    ),
+                                    line,
+                                    col,
+                                }),
+                            Escape::Return{value, ..} =>
+                                Ok(value),
+                        }
+                    })
                     .context(EvalFuncCallFailed{
                         func_name,
                         call_loc: (*line, *col),
-                    })?;
-
-                match v {
-                    Escape::None =>
-                        value::new_null(),
-                    Escape::Break{..} =>
-                        return Err(Error::BreakOutsideLoop),
-                    Escape::Continue{..} =>
-                        return Err(Error::ContinueOutsideLoop),
-                    Escape::Return{value, ..} =>
-                        value,
-                }
+                    })?
             },
         };
 
